@@ -27,6 +27,9 @@ enum ArbState {
     BusyFinite,
     /// a task sleeping for an hour
     Sleeping,
+    /// the arbiter's thread is held by a blocking task while 40..120 commands queue up behind it; it is released
+    /// around the time the stop is issued, so its loop has a long backlog in front of the system's stop command
+    Backlog,
 }
 
 #[derive(Clone, Copy, Debug, PartialEq, Eq)]
@@ -68,7 +71,7 @@ fn gen(rng: &mut Rng, small: bool) -> Scn {
 fn gen_from_seed(seed: u64, small: bool) -> Scn {
     let mut r = Rng::new(seed);
     let n = r.usize(if small { 3 } else { 4 });
-    let states = [ArbState::StoppedEarlyJoined, ArbState::StoppedEarly, ArbState::Dropped, ArbState::Idle, ArbState::BusyFinite, ArbState::Sleeping];
+    let states = [ArbState::StoppedEarlyJoined, ArbState::StoppedEarly, ArbState::Dropped, ArbState::Idle, ArbState::BusyFinite, ArbState::Sleeping, ArbState::Backlog];
     let arbiters: Vec<ArbState> = (0..n).map(|_| *r.pick(&states)).collect();
     let alive: Vec<usize> = arbiters
         .iter()
@@ -154,6 +157,7 @@ struct Seen {
     stops_from_foreign: u64,
     stops_from_system_thread: u64,
     late_arbiters: u64,
+    backlog_arbiters: u64,
 }
 
 /// Runs on a fresh thread: owns the System.
@@ -166,6 +170,7 @@ fn scenario(scn: &Scn, seen: &mut Seen) -> Outcome {
     let mut kept: Vec<(usize, Arbiter)> = Vec::new();
     let mut handles = Vec::new();
     let mut drop_flags: Vec<(usize, Arc<AtomicBool>)> = Vec::new();
+    let mut backlog_release: Vec<Arc<AtomicBool>> = Vec::new();
     for (i, st) in scn.arbiters.iter().enumerate() {
         let arb = Arbiter::new();
         handles.push(arb.handle());
@@ -216,8 +221,50 @@ fn scenario(scn: &Scn, seen: &mut Seen) -> Outcome {
                 });
                 kept.push((i, arb));
             }
+            ArbState::Backlog => {
+                let release = Arc::new(AtomicBool::new(false));
+                let entered = Arc::new(AtomicBool::new(false));
+                let (e2, r2) = (entered.clone(), release.clone());
+                arb.spawn_fn(move || {
+                    e2.store(true, Ordering::SeqCst);
+                    // bounded, so that a scenario that ends early cannot leave a spinning thread behind
+                    let t0 = std::time::Instant::now();
+                    while !r2.load(Ordering::SeqCst) && t0.elapsed() < Duration::from_secs(10) {
+                        thread::yield_now();
+                    }
+                });
+                match wait_until(|| entered.load(Ordering::SeqCst)) {
+                    Waited::Done(()) => {}
+                    _ => {
+                        release.store(true, Ordering::SeqCst);
+                        return Outcome::Inconclusive("backlog blocker did not start");
+                    }
+                }
+                let n = 40 + rng.usize(80);
+                let ran = Arc::new(AtomicU64::new(0));
+                for _ in 0..n {
+                    let ran = ran.clone();
+                    arb.spawn_fn(move || {
+                        ran.fetch_add(1, Ordering::Relaxed);
+                    });
+                }
+                seen.backlog_arbiters += 1;
+                backlog_release.push(release);
+                kept.push((i, arb));
+            }
         }
         jitter(&mut rng);
+    }
+    // arbiters with a backlog are let go around the time the stops are issued
+    if !backlog_release.is_empty() {
+        let delay_us = rng.below(3000);
+        let flags = backlog_release.clone();
+        thread::spawn(move || {
+            thread::sleep(Duration::from_micros(delay_us));
+            for f in flags {
+                f.store(true, Ordering::SeqCst);
+            }
+        });
     }
 
     // ---- stops
@@ -489,6 +536,7 @@ fn merge(a: &mut Seen, b: &Seen) {
     a.stops_from_foreign += b.stops_from_foreign;
     a.stops_from_system_thread += b.stops_from_system_thread;
     a.late_arbiters += b.late_arbiters;
+    a.backlog_arbiters += b.backlog_arbiters;
 }
 
 pub fn run(args: &Args, rep: &mut Report) {
@@ -567,5 +615,6 @@ pub fn run(args: &Args, rep: &mut Report) {
     rep.add("obs_stops_from_foreign_thread", seen.stops_from_foreign);
     rep.add("obs_stops_from_system_thread", seen.stops_from_system_thread);
     rep.add("obs_arbiters_created_between_two_stops", seen.late_arbiters);
+    rep.add("obs_arbiters_with_command_backlog", seen.backlog_arbiters);
 }
 
